@@ -147,3 +147,10 @@ func isNilFunc(f value) bool {
 	}
 	return false
 }
+
+func init() {
+	// field.Error formatting walks the bad value with reflection; error text is not the
+	// subject of any property
+	externals["(*k8s.io/apimachinery/pkg/util/validation/field.Error).ErrorBody"] = func(fr *frame, a []value) value { return "<field error>" }
+	externals["(*k8s.io/apimachinery/pkg/util/validation/field.Error).Error"] = func(fr *frame, a []value) value { return "<field error>" }
+}
